@@ -108,4 +108,11 @@ def targets (m : Members) (self : String) : List String := (m.filter (·.1 ≠ s
 /-- the changed target selection: the alive entries of the address-keyed table -/
 def targetsByTable (p : Peers) : List String := (p.filter (·.2.status = .alive)).map (·.2.name)
 
+/-- `Peer.Position`: the number of members — as memberlist lists them — whose name sorts before one's own. -/
+def position (m : Members) (self : String) : Nat := (m.filter (fun e => decide (e.1 < self))).length
+
+/-- the changed position: the alive entries of the address-keyed table with a smaller name -/
+def positionByTable (p : Peers) (self : String) : Nat :=
+  (p.filter (fun e => decide (e.2.status = .alive) && decide (e.2.name < self))).length
+
 end AM.Registry
